@@ -5,7 +5,7 @@ current bctpy source (Extracted.lean).  This file has no imports of its own: che
 into build/<run>/Combined.lean and runs `lean` on it.  A change of the library code changes the generated definitions; the
 theorems below are then re-checked against the new terms and the ones that no longer hold are reported by name.
 
-Every theorem that counts as an obligation is preceded by a line   --@ <property ids> : <bct functions>   (sections: C09, C10, C04, C14, C02, C18)
+Every theorem that counts as an obligation is preceded by a line   --@ <property ids> : <bct functions>   (sections: C09, C10, C04, C14, C02, C18, C15, C19)
 No `sorry`, no `axiom` (scanned on every run; `#print axioms` must list only propext / Classical.choice / Quot.sound).
 
 Conventions: `cbrt` is the abstract cube root (hypotheses `cbrt x ^ 3 = x`, `cbrt 0 = 0`, `cbrt 1 = 1` are passed where needed),
@@ -15,6 +15,8 @@ commute summations, `ring1`), so renaming locals, reordering independent stateme
 in the Python source does not break them.
 -/
 set_option autoImplicit false
+set_option linter.unusedTactic false
+set_option linter.unreachableTactic false
 set_option linter.unnecessarySeqFocus false
 set_option linter.unusedVariables false
 
@@ -212,7 +214,7 @@ theorem strengths_und_eq_degrees_und (A : Fin n → Fin n → ℝ) (h01 : ∀ i 
 theorem strengths_dir_eq_degrees_dir (A : Fin n → Fin n → ℝ) (h01 : ∀ i j, A i j = 0 ∨ A i j = 1) :
     strengths_dir A = degrees_dir_ret2 A := by
   funext i
-  simp only [strengths_dir, degrees_dir_ret2, ind_binarize, ind_01 (h01 _ _)]
+  simp only [strengths_dir, degrees_dir_ret2, ind_binarize, ind_01 (h01 _ _)] <;> first | rfl | ring1
 
 /-- in-degree of degrees_dir is the degree of degrees_und (column counts), for every matrix -/
 --@ C10 : degrees_dir, degrees_und
@@ -233,7 +235,7 @@ theorem degrees_dir_out_eq_degrees_und (A : Fin n → Fin n → ℝ) (hs : ∀ i
 theorem degrees_dir_total (A : Fin n → Fin n → ℝ) :
     degrees_dir_ret2 A = fun i => degrees_dir_ret0 A i + degrees_dir_ret1 A i := by
   funext i
-  simp only [degrees_dir_ret0, degrees_dir_ret1, degrees_dir_ret2]
+  simp only [degrees_dir_ret0, degrees_dir_ret1, degrees_dir_ret2] <;> first | rfl | ring1
 
 --@ C10 : clustering_coef_wd, clustering_coef_bd
 theorem clustering_coef_wd_eq_bd (cbrt : ℝ → ℝ) (h0 : cbrt 0 = 0) (h1 : cbrt 1 = 1)
@@ -941,4 +943,229 @@ theorem eigenvector_centrality_und_spec
   · intro i; rw [eigenvector_centrality_und_is_abs_argmax_column]; exact abs_nonneg _
 
 end C18
+end Extracted
+
+/-! ## C15 (also used by C01 / C06 / C11) — the CALLEE CONTRACTS that the pyvc tier assumes for degrees_und, degrees_dir,
+strengths_und and binarize (engine/pyvc/run.py: callee_degrees_und, callee_degrees_dir, callee_strengths_und, callee_binarize),
+proved here for the extracted definitions, for all n and ALL real matrices.  `ccnt`, `rcnt`, `csum`, `rsum` are the SMT spec
+functions ccnt(M, y, n), cnt1(M[x], n), csum(M, y, n), sum1(M[x], n) (VerifLemmas: ccnt, cnt, csum, sum1). -/
+namespace Extracted
+open BigOperators Finset
+
+section C15
+variable {n : ℕ}
+
+/-- number of non-zero entries of column y / of row x; column and row sums -/
+noncomputable def ccnt (M : Fin n → Fin n → ℝ) (y : Fin n) : ℕ := (Finset.univ.filter (fun x => M x y ≠ 0)).card
+noncomputable def rcnt (M : Fin n → Fin n → ℝ) (x : Fin n) : ℕ := (Finset.univ.filter (fun y => M x y ≠ 0)).card
+noncomputable def csum (M : Fin n → Fin n → ℝ) (y : Fin n) : ℝ := ∑ x, M x y
+noncomputable def rsum (M : Fin n → Fin n → ℝ) (x : Fin n) : ℝ := ∑ y, M x y
+
+lemma sum_ind_col (M : Fin n → Fin n → ℝ) (y : Fin n) : ∑ x, ind (M x y) = (ccnt M y : ℝ) := by
+  simp only [ind, ccnt, Finset.sum_boole]
+lemma sum_ind_row (M : Fin n → Fin n → ℝ) (x : Fin n) : ∑ y, ind (M x y) = (rcnt M x : ℝ) := by
+  simp only [ind, rcnt, Finset.sum_boole]
+
+/-- discharges callee_binarize (copy=True): entry = 1 where the argument is non-zero, 0 elsewhere -/
+--@ C15 : binarize
+theorem binarize_is_indicator (W : Fin n → Fin n → ℝ) (i j : Fin n) :
+    binarize W i j = if W i j ≠ 0 then 1 else 0 := by
+  simp only [binarize, ind_binarize, ind]
+
+/-- discharges callee_degrees_und: deg[q] = ccnt(CIJ, q, n), the number of non-zero entries of column q -/
+--@ C15 : degrees_und
+theorem degrees_und_is_column_count (CIJ : Fin n → Fin n → ℝ) (y : Fin n) :
+    degrees_und CIJ y = (ccnt CIJ y : ℝ) := by
+  simp only [degrees_und, ind_binarize, ind_not, sum_ind_col]
+
+/-- discharges callee_degrees_dir: (column counts, row counts, their sum) -/
+--@ C15 : degrees_dir
+theorem degrees_dir_is_counts (CIJ : Fin n → Fin n → ℝ) (q : Fin n) :
+    degrees_dir_ret0 CIJ q = (ccnt CIJ q : ℝ) ∧ degrees_dir_ret1 CIJ q = (rcnt CIJ q : ℝ) ∧
+    degrees_dir_ret2 CIJ q = ((ccnt CIJ q + rcnt CIJ q : ℕ) : ℝ) := by
+  refine ⟨?_, ?_, ?_⟩
+  · simp only [degrees_dir_ret0, ind_binarize, ind_not, sum_ind_col]
+  · simp only [degrees_dir_ret1, ind_binarize, ind_not, sum_ind_row]
+  · simp only [degrees_dir_ret2, ind_binarize, ind_not, sum_ind_col, sum_ind_row, Nat.cast_add] <;> first | rfl | ring1
+
+/-- discharges callee_strengths_und: str[q] = csum(CIJ, q, n) -/
+--@ C15 : strengths_und
+theorem strengths_und_is_column_sum (CIJ : Fin n → Fin n → ℝ) (y : Fin n) : strengths_und CIJ y = csum CIJ y := by
+  simp only [strengths_und, csum]
+
+/-- strengths_dir = in-strength + out-strength (no pyvc callee contract uses it yet) -/
+--@ C15 : strengths_dir
+theorem strengths_dir_is_sum_of_sums (CIJ : Fin n → Fin n → ℝ) (q : Fin n) :
+    strengths_dir CIJ q = csum CIJ q + rsum CIJ q := by
+  simp only [strengths_dir, csum, rsum] <;> first | rfl | ring1
+
+end C15
+end Extracted
+
+/-! ## C19 — the t-statistic closures of nbs_bct (bct/nbs.py): ttest2_stat_only (POOLED-variance two-sample statistic, as the code
+computes it — not Welch) and ttest_paired_stat_only, one extracted definition per tail.  `sqrt` is an abstract function ℝ → ℝ (no
+property of it is used).  Groups have sizes n1, n2 (vectors over Fin n1 / Fin n2). -/
+namespace Extracted
+open BigOperators Finset
+
+section C19
+variable {n1 n2 n : ℕ}
+
+/-- np.mean and np.var(·, ddof=1) of a sample of size m -/
+noncomputable def smean {m : ℕ} (x : Fin m → ℝ) : ℝ := (∑ i, x i) / (m : ℝ)
+noncomputable def svar1 {m : ℕ} (x : Fin m → ℝ) : ℝ := (∑ i, (x i - smean x) ^ 2) / ((m : ℝ) - 1)
+/-- pooled standard error: sqrt(((n1−1) s1² + (n2−1) s2²)/(n1+n2−2)) · sqrt(1/n1 + 1/n2) -/
+noncomputable def tden (sqrt : ℝ → ℝ) (x : Fin n1 → ℝ) (y : Fin n2 → ℝ) : ℝ :=
+  sqrt ((((n1 : ℝ) - 1) * svar1 x + ((n2 : ℝ) - 1) * svar1 y) / ((n1 : ℝ) + (n2 : ℝ) - 2)) * sqrt (1 / (n1 : ℝ) + 1 / (n2 : ℝ))
+/-- the two-sample statistic (mean x − mean y) / pooled standard error -/
+noncomputable def tstat (sqrt : ℝ → ℝ) (x : Fin n1 → ℝ) (y : Fin n2 → ℝ) : ℝ := (smean x - smean y) / tden sqrt x y
+
+lemma tden_swap (sqrt : ℝ → ℝ) (x : Fin n1 → ℝ) (y : Fin n2 → ℝ) : tden sqrt y x = tden sqrt x y := by
+  unfold tden
+  congr 2 <;> ring
+lemma tstat_swap (sqrt : ℝ → ℝ) (x : Fin n1 → ℝ) (y : Fin n2 → ℝ) : tstat sqrt y x = - tstat sqrt x y := by
+  unfold tstat; rw [tden_swap]; ring
+
+lemma smean_perm {m : ℕ} (σ : Equiv.Perm (Fin m)) (x : Fin m → ℝ) : smean (fun i => x (σ i)) = smean x := by
+  unfold smean; rw [Equiv.sum_comp σ x]
+lemma svar1_perm {m : ℕ} (σ : Equiv.Perm (Fin m)) (x : Fin m → ℝ) : svar1 (fun i => x (σ i)) = svar1 x := by
+  unfold svar1; rw [smean_perm, Equiv.sum_comp σ (fun i => (x i - smean x) ^ 2)]
+lemma allconst_perm {m : ℕ} (σ : Equiv.Perm (Fin m)) (x : Fin m → ℝ) :
+    (∀ a b, x (σ a) = x (σ b)) ↔ (∀ a b, x a = x b) := by
+  constructor
+  · intro h a b; simpa using h (σ.symm a) (σ.symm b)
+  · intro h a b; exact h _ _
+
+/-- `if` congruence that does not care which Decidable instances the two sides carry -/
+lemma ite_eq_of_iff {p q : Prop} [Decidable p] [Decidable q] {a a' b b' : ℝ} (h : p ↔ q) (ha : a = a') (hb : b = b') :
+    (if p then a else b) = (if q then a' else b') := by
+  subst ha hb
+  by_cases hp : p
+  · rw [if_pos hp, if_pos (h.mp hp)]
+  · rw [if_neg hp, if_neg (fun hq => hp (h.mpr hq))]
+
+/-- congruence for the guarded value `if d = 0 ∨ p then 0 else t` -/
+lemma guard_ite_congr {p q : Prop} {d d' t t' : ℝ} [Decidable (d = 0 ∨ p)] [Decidable (d' = 0 ∨ q)]
+    (hd : d = d') (hp : p ↔ q) (ht : t = t') :
+    (if d = 0 ∨ p then (0:ℝ) else t) = (if d' = 0 ∨ q then 0 else t') :=
+  ite_eq_of_iff (by rw [hd, hp]) rfl ht
+
+/-- value for tail = 'right': 0 in the degenerate case (zero standard error, or both samples constant), else the statistic -/
+--@ C19 : nbs_bct
+theorem ttest2_right_def (sqrt : ℝ → ℝ) (x : Fin n1 → ℝ) (y : Fin n2 → ℝ) :
+    ttest2_stat_only_right sqrt x y
+      = if tden sqrt x y = 0 ∨ ((∀ a b, x a = x b) ∧ (∀ a b, y a = y b)) then 0 else tstat sqrt x y := by
+  unfold ttest2_stat_only_right
+  refine guard_ite_congr ?_ ?_ ?_ <;>
+    first | rfl | exact Iff.rfl | exact and_comm |
+      (simp only [tstat, tden, svar1, smean, neg_div] <;> first | rfl | ring1 | (congr 1; ring1))
+--@ C19 : nbs_bct
+theorem ttest2_left_def (sqrt : ℝ → ℝ) (x : Fin n1 → ℝ) (y : Fin n2 → ℝ) :
+    ttest2_stat_only_left sqrt x y
+      = if tden sqrt x y = 0 ∨ ((∀ a b, x a = x b) ∧ (∀ a b, y a = y b)) then 0 else - tstat sqrt x y := by
+  unfold ttest2_stat_only_left
+  refine guard_ite_congr ?_ ?_ ?_ <;>
+    first | rfl | exact Iff.rfl | exact and_comm |
+      (simp only [tstat, tden, svar1, smean, neg_div] <;> first | rfl | ring1 | (congr 1; ring1))
+--@ C19 : nbs_bct
+theorem ttest2_both_def (sqrt : ℝ → ℝ) (x : Fin n1 → ℝ) (y : Fin n2 → ℝ) :
+    ttest2_stat_only_both sqrt x y
+      = if tden sqrt x y = 0 ∨ ((∀ a b, x a = x b) ∧ (∀ a b, y a = y b)) then 0 else |tstat sqrt x y| := by
+  unfold ttest2_stat_only_both
+  refine guard_ite_congr ?_ ?_ ?_ <;>
+    first | rfl | exact Iff.rfl | exact and_comm |
+      (simp only [tstat, tden, svar1, smean, neg_div] <;> first | rfl | ring1 | (congr 1; ring1))
+
+/-- swapping the two groups together with the tail ('left' ↔ 'right') leaves the statistic unchanged -/
+--@ C19 : nbs_bct
+theorem ttest2_swap_groups_and_tail (sqrt : ℝ → ℝ) (x : Fin n1 → ℝ) (y : Fin n2 → ℝ) :
+    ttest2_stat_only_left sqrt y x = ttest2_stat_only_right sqrt x y ∧
+    ttest2_stat_only_right sqrt y x = ttest2_stat_only_left sqrt x y := by
+  rw [ttest2_left_def, ttest2_right_def, ttest2_left_def, ttest2_right_def, tden_swap, tstat_swap, neg_neg]
+  exact ⟨ite_eq_of_iff (or_congr Iff.rfl and_comm) rfl rfl, ite_eq_of_iff (or_congr Iff.rfl and_comm) rfl rfl⟩
+
+/-- tail = 'both' is invariant under swapping the groups -/
+--@ C19 : nbs_bct
+theorem ttest2_both_swap_invariant (sqrt : ℝ → ℝ) (x : Fin n1 → ℝ) (y : Fin n2 → ℝ) :
+    ttest2_stat_only_both sqrt y x = ttest2_stat_only_both sqrt x y := by
+  rw [ttest2_both_def, ttest2_both_def, tden_swap, tstat_swap, abs_neg]
+  exact ite_eq_of_iff (or_congr Iff.rfl and_comm) rfl rfl
+
+lemma tden_perm_x (sqrt : ℝ → ℝ) (σ : Equiv.Perm (Fin n1)) (x : Fin n1 → ℝ) (y : Fin n2 → ℝ) :
+    tden sqrt (fun i => x (σ i)) y = tden sqrt x y := by unfold tden; rw [svar1_perm]
+lemma tden_perm_y (sqrt : ℝ → ℝ) (τ : Equiv.Perm (Fin n2)) (x : Fin n1 → ℝ) (y : Fin n2 → ℝ) :
+    tden sqrt x (fun i => y (τ i)) = tden sqrt x y := by unfold tden; rw [svar1_perm]
+lemma tstat_perm (sqrt : ℝ → ℝ) (σ : Equiv.Perm (Fin n1)) (τ : Equiv.Perm (Fin n2)) (x : Fin n1 → ℝ) (y : Fin n2 → ℝ) :
+    tstat sqrt (fun i => x (σ i)) (fun i => y (τ i)) = tstat sqrt x y := by
+  unfold tstat; rw [tden_perm_x, tden_perm_y, smean_perm, smean_perm]
+
+/-- reordering the subjects within each group (any permutations σ of x, τ of y) leaves the statistic unchanged, for every tail -/
+--@ C19 : nbs_bct
+theorem ttest2_subject_order_invariant (sqrt : ℝ → ℝ) (σ : Equiv.Perm (Fin n1)) (τ : Equiv.Perm (Fin n2))
+    (x : Fin n1 → ℝ) (y : Fin n2 → ℝ) :
+    ttest2_stat_only_right sqrt (fun i => x (σ i)) (fun i => y (τ i)) = ttest2_stat_only_right sqrt x y ∧
+    ttest2_stat_only_left sqrt (fun i => x (σ i)) (fun i => y (τ i)) = ttest2_stat_only_left sqrt x y ∧
+    ttest2_stat_only_both sqrt (fun i => x (σ i)) (fun i => y (τ i)) = ttest2_stat_only_both sqrt x y := by
+  have hc : (tden sqrt (fun i => x (σ i)) (fun i => y (τ i)) = 0 ∨
+        ((∀ a b, x (σ a) = x (σ b)) ∧ (∀ a b, y (τ a) = y (τ b))))
+      ↔ (tden sqrt x y = 0 ∨ ((∀ a b, x a = x b) ∧ (∀ a b, y a = y b))) := by
+    rw [tden_perm_x, tden_perm_y, allconst_perm σ x, allconst_perm τ y]
+  simp only [ttest2_right_def, ttest2_left_def, ttest2_both_def, tstat_perm]
+  exact ⟨ite_eq_of_iff hc rfl rfl, ite_eq_of_iff hc rfl rfl, ite_eq_of_iff hc rfl rfl⟩
+
+/-! ### paired statistic: z = mean(A − B) / sqrt(SS/(n − 1)), SS = Σ(A−B)² − (Σ(A−B))²/n, t = z · sqrt n -/
+
+noncomputable def tpaired (sqrt : ℝ → ℝ) (A B : Fin n → ℝ) : ℝ :=
+  smean (fun i => A i - B i)
+    / sqrt (((∑ i, (A i - B i) ^ 2) - (∑ i, (A i - B i)) ^ 2 / (n : ℝ)) / ((n : ℝ) - 1)) * sqrt (n : ℝ)
+
+--@ C19 : nbs_bct
+theorem ttest_paired_def (sqrt : ℝ → ℝ) (A B : Fin n → ℝ) :
+    ttest_paired_stat_only_right sqrt A B = tpaired sqrt A B ∧
+    ttest_paired_stat_only_left sqrt A B = - tpaired sqrt A B ∧
+    ttest_paired_stat_only_both sqrt A B = |tpaired sqrt A B| := by
+  refine ⟨?_, ?_, ?_⟩
+  · unfold ttest_paired_stat_only_right tpaired smean; first | rfl | ring1
+  · unfold ttest_paired_stat_only_left tpaired smean; first | rfl | ring1
+  · unfold ttest_paired_stat_only_both tpaired smean; first | rfl | (congr 1; ring1)
+
+lemma tpaired_swap (sqrt : ℝ → ℝ) (A B : Fin n → ℝ) : tpaired sqrt B A = - tpaired sqrt A B := by
+  have h1 : ∀ i, (B i - A i) ^ 2 = (A i - B i) ^ 2 := fun i => by ring
+  have h2 : ∑ i, (B i - A i) = - ∑ i, (A i - B i) := by
+    rw [← Finset.sum_neg_distrib]; exact Finset.sum_congr rfl (fun i _ => by ring)
+  unfold tpaired smean
+  simp only [h1, h2, neg_sq]
+  ring
+
+/-- swapping A and B together with the tail leaves the paired statistic unchanged; 'both' is swap-invariant -/
+--@ C19 : nbs_bct
+theorem ttest_paired_swap (sqrt : ℝ → ℝ) (A B : Fin n → ℝ) :
+    ttest_paired_stat_only_left sqrt B A = ttest_paired_stat_only_right sqrt A B ∧
+    ttest_paired_stat_only_right sqrt B A = ttest_paired_stat_only_left sqrt A B ∧
+    ttest_paired_stat_only_both sqrt B A = ttest_paired_stat_only_both sqrt A B := by
+  obtain ⟨r1, l1, b1⟩ := ttest_paired_def sqrt A B
+  obtain ⟨r2, l2, b2⟩ := ttest_paired_def sqrt B A
+  rw [r1, l1, b1, r2, l2, b2, tpaired_swap, neg_neg, abs_neg]
+  exact ⟨rfl, rfl, rfl⟩
+
+/-- permuting the PAIRS jointly leaves the paired statistic unchanged, for every tail -/
+--@ C19 : nbs_bct
+theorem ttest_paired_pair_order_invariant (sqrt : ℝ → ℝ) (σ : Equiv.Perm (Fin n)) (A B : Fin n → ℝ) :
+    ttest_paired_stat_only_right sqrt (fun i => A (σ i)) (fun i => B (σ i)) = ttest_paired_stat_only_right sqrt A B ∧
+    ttest_paired_stat_only_left sqrt (fun i => A (σ i)) (fun i => B (σ i)) = ttest_paired_stat_only_left sqrt A B ∧
+    ttest_paired_stat_only_both sqrt (fun i => A (σ i)) (fun i => B (σ i)) = ttest_paired_stat_only_both sqrt A B := by
+  refine ⟨?_, ?_, ?_⟩
+  · simp only [ttest_paired_stat_only_right]; perm_sum σ
+  · simp only [ttest_paired_stat_only_left]; perm_sum σ
+  · simp only [ttest_paired_stat_only_both]; perm_sum σ
+
+/-! ### p-value statement of nbs_bct (FRAGMENT `pvals[i] = np.size(np.where(null >= sz_links[i])) / k`; `null`, `sz_links`, `i`
+are free: nothing is claimed about how the surrounding loops compute them, and `null` is taken to have k entries) -/
+
+--@ C19 : nbs_bct
+theorem nbs_pvalue_is_null_fraction {k c : ℕ} (null : Fin k → ℝ) (sz_links : Fin c → ℝ) (i : Fin c) :
+    nbs_bct_pvals_i null sz_links i = ((Finset.univ.filter (fun u => sz_links i ≤ null u)).card : ℝ) / (k : ℝ) := by
+  simp only [nbs_bct_pvals_i, ge_iff_le, Finset.sum_boole]
+
+end C19
 end Extracted
